@@ -223,8 +223,12 @@ func localPort(r *http.Request) string {
 	if r == nil {
 		return ""
 	}
-	n := strings.Index(r.Host, ":")
-	if n > 0 && n < len(r.Host)-1 {
+	if strings.HasPrefix(r.Host, "[") {
+		// IPv6 literal: [::1] or [::1]:8080
+		if _, port, err := net.SplitHostPort(r.Host); err == nil && port != "" {
+			return port
+		}
+	} else if n := strings.Index(r.Host, ":"); n > 0 && n < len(r.Host)-1 {
 		return r.Host[n+1:]
 	}
 	if r.TLS != nil {
